@@ -13,10 +13,14 @@
 (*               of tryNode (store.Last, from, client.SyncChain)            *)
 (*   TaskItem    one iteration of tryNode's receive loop: beacon-id test,   *)
 (*               VerifyBeacon, Put (secure stack or raw store in resync)    *)
-(*   TaskNotify  `s.newSyncedBeacon <- beacon` (1-slot channel, blocking)   *)
+(*   TaskNotify  `s.newSyncedBeacon <- beacon` when the 1-slot channel was  *)
+(*               full (otherwise folded into TaskItem)                      *)
 (*   TaskReap    Sync returned: innerCancel (Run) / errChan (follow) /      *)
 (*               ReSync retry + next faulty round (repair)                  *)
-(*   RunReq      Run: `case request := <-s.newReq` (skip / expiry / restart)*)
+(*   RunSkip / RunRestartWith(perm)                                         *)
+(*               Run: `case request := <-s.newReq`: request filled or a    *)
+(*               recent sync in progress / cancel + Sync with a fresh       *)
+(*               random permutation (expiry after `factor` = 2 periods)     *)
 (*   RunNotif    Run: `case <-s.newSyncedBeacon`                            *)
 (*   Tick, Request, AggPut   environment: time, Handler.run / aggregator    *)
 (*               asking for a sync, aggregator appending the next round     *)
